@@ -242,6 +242,12 @@ func VerifH_C16_multipolygon() {
 	case 3: // a hole whose top vertices share their latitude with the top of another outer to the east
 		rings = []gRing{{pts: gSquare(1, 1, 6, true), outer: true}, {pts: gSquare(3, 3, 2, false)},
 			{pts: gSquare(11, -1, 6, true), outer: true}}
+	case 5: // ... with a vertex of another outer where its boundary passes through that latitude
+		rings = []gRing{{pts: gSquare(1, 1, 6, true), outer: true}, {pts: gSquare(3, 3, 2, false)},
+			{pts: []orb.Point{{11, 1}, {15, 1}, {17, 3}, {15, 7}, {11, 7}, {9, 5}}, outer: true}}
+	case 6: // ... same, other latitude of the hole
+		rings = []gRing{{pts: gSquare(1, 1, 6, true), outer: true}, {pts: gSquare(3, 3, 2, false)},
+			{pts: []orb.Point{{11, 1}, {15, 1}, {17, 5}, {15, 7}, {11, 7}, {9, 3}}, outer: true}}
 	case 4: // ... and with the bottom of another outer to the east
 		rings = []gRing{{pts: gSquare(1, 1, 6, true), outer: true}, {pts: gSquare(3, 3, 2, false)},
 			{pts: gSquare(11, 3, 6, true), outer: true}}
